@@ -262,6 +262,7 @@ type propInfo struct {
 	BudgetIsViolation       bool
 	RaceMode                bool
 	RaceCompanion           string
+	Companions              []string
 }
 
 type failure struct {
@@ -582,6 +583,19 @@ func cmdCheck(args []string) {
 		}
 		batches = append(batches, batch{name: "known-findings", from: 1 << 24, to: 1<<24 + n, avoid: "", prop: id, bin: bin, race: race})
 	}
+	// companions: further harnesses for clauses of the same statement, same binary
+	if runsOverride == 0 {
+		for ci, comp := range p.Companions {
+			if cp, ok := props[comp]; ok {
+				n := cp.QuickRuns
+				if tier == "thorough" {
+					n = cp.ThoroughRuns
+				}
+				base := 1<<26 + ci<<22
+				batches = append(batches, batch{name: comp, from: base, to: base + n, avoid: avoid, prop: comp, bin: bin, race: race})
+			}
+		}
+	}
 	// race-mode companion (the "no data race" clause): same workloads in a -race binary
 	raceBin := ""
 	if p.RaceCompanion != "" && runsOverride == 0 {
@@ -597,6 +611,11 @@ func cmdCheck(args []string) {
 	binFor := func(class string) (string, string, bool) {
 		if p.RaceCompanion != "" && strings.HasPrefix(class, p.RaceCompanion+"/") {
 			return raceBin, p.RaceCompanion, true
+		}
+		for _, comp := range p.Companions {
+			if strings.HasPrefix(class, comp+"/") {
+				return bin, comp, race
+			}
 		}
 		return bin, id, race
 	}
@@ -622,6 +641,7 @@ func cmdCheck(args []string) {
 		}
 	}
 	ag := newAgg()
+	batchRuns := map[string]int{}
 	var mu sync.Mutex
 	var werr error
 	jobCh := make(chan int)
@@ -658,6 +678,7 @@ func cmdCheck(args []string) {
 					}
 				} else {
 					ag.add(wo)
+					batchRuns[j.b.name] += wo.Done
 					skipped += (j.to - j.from) - wo.Done
 				}
 				mu.Unlock()
@@ -758,7 +779,17 @@ func cmdCheck(args []string) {
 		fmt.Printf("  class: %s\n  first failing run: %d (of %d failing runs)\n  %s\n  %s\n", c, ag.firstRun[c], ag.failCount[c], f.Msg, f.MinInfo)
 		exit = 1
 	}
-	writeEvidence(id, tier, seed, p, ag, time.Since(start), unlisted, skipped, bin)
+	var binfo []interface{}
+	for _, b := range batches {
+		e := map[string]interface{}{"batch": b.name, "harness": b.prop, "runs": batchRuns[b.name], "race_binary": b.race, "avoid": b.avoid}
+		if b.prop != id {
+			if cp, ok := props[b.prop]; ok {
+				e["rule"] = cp.Rule
+			}
+		}
+		binfo = append(binfo, e)
+	}
+	writeEvidence(id, tier, seed, p, ag, time.Since(start), unlisted, skipped, bin, binfo)
 	fmt.Printf("vdriver: %s %s seed=%d runs=%d (skipped %d) steps=%d sim-time=%.0fs distinct-schedules=%d wall=%.1fs exit=%d\n",
 		id, tier, seed, ag.runs, skipped, ag.st.Steps, float64(ag.st.SimTimeNs)/1e9, len(ag.sets["schedules"]), time.Since(start).Seconds(), exit)
 	os.RemoveAll(tmp)
@@ -813,8 +844,11 @@ func doReplay(bin, tmp, id, file string) int {
 	}
 	isRace := false
 	if f.Property != "" && f.Property != id {
-		// a replay file of the check's race-mode companion
-		bin, id, isRace = buildHarness(true), f.Property, true
+		// a replay file of one of the check's companions (race mode or not)
+		if pi, ok := listProps(bin, tmp)[f.Property]; ok && pi.RaceMode {
+			bin, isRace = buildHarness(true), true
+		}
+		id = f.Property
 	}
 	cls, lh, err := replayFile(bin, tmp, id, file, isRace)
 	if err != nil {
@@ -837,7 +871,7 @@ func doReplay(bin, tmp, id, file string) int {
 	return 1
 }
 
-func writeEvidence(id, tier string, seed uint64, p propInfo, ag *agg, wall time.Duration, violations, skipped int, bin string) {
+func writeEvidence(id, tier string, seed uint64, p propInfo, ag *agg, wall time.Duration, violations, skipped int, bin string, batches []interface{}) {
 	faults := map[string]int64{}
 	probes := map[string]int64{}
 	other := map[string]int64{}
@@ -883,6 +917,7 @@ func writeEvidence(id, tier string, seed uint64, p propInfo, ag *agg, wall time.
 		"components_stubbed":        p.Stub,
 		"seeds":                     fmt.Sprintf("base seed %d, run i uses mix(seed,i); replay files carry the full choice lists", seed),
 		"failing_classes":           ag.failCount,
+		"batches":                   batches,
 	}
 	ev := map[string]interface{}{
 		"property_id": id,
